@@ -26,7 +26,7 @@ from encl_check import RNDS, mp, mk, tup, dy_of, guarded, is_finite_tuple, libel
 from encl_ops import ask, acc_decide, encl_frac
 
 LEVEL = "translation_validation"
-LEAN_MODULES = ["Props.C13"]
+LEAN_MODULES = ["Props.C13", "Props.C13sqrt"]
 ASSUMPTIONS = [
     "exactness is decided per sampled input (perfect powers, half-integers, special points; all rounding modes, precisions "
     "10..600); the Lean theorems make each decision rigorous, they are not a forall-statement about mpmath's code",
